@@ -33,6 +33,18 @@ fn main() {
                 Path::new(&args[6]),
             )
         }
+        Some("fingerprint") if args.len() >= 9 => {
+            let tier = if args[3] == "thorough" { Tier::Thorough } else { Tier::Quick };
+            driver::fingerprint_main(
+                &args[2],
+                tier,
+                args[4].parse().unwrap_or(0),
+                args[5].parse().unwrap_or(0),
+                args[6].parse().unwrap_or(0),
+                args[7].parse().unwrap_or(1),
+                Path::new(&args[8]),
+            )
+        }
         Some("replay") if args.len() >= 3 => driver::replay_main(Path::new(&args[2])),
         Some("list") => {
             for id in spec::all_property_ids() {
